@@ -79,6 +79,8 @@ class Library:
         """-> (True, value) / (False, None); `it` is the iterator object (L)"""
         I = self.I
         tag = it.tag
+        if len(it) and type(it[0]).__name__ == 'Poison':
+            raise Unsupported(it[0].why)
         if tag == 'Range':
             s, e = it[0], it[1]
             if type(s) is not int or type(e) is not int:
